@@ -549,6 +549,12 @@ if _CHUNK_SUITE not in PROPS['C13']['suites']:
     PROPS['C13']['suites'] = PROPS['C13']['suites'] + [_CHUNK_SUITE]
     PROPS['C13']['rule'] = PROPS['C13']['rule'] + ' || chunk suite: RawMessage.EncodeMsg through a stream writer at sizes around and beyond its 2 KiB buffer, followed by another message (RAWE)'
 
+# round 7: a send altered by an earlier failed send (C07 through the client), instants through the packed constructors (C19)
+PROPS['C07']['suites'] = PROPS['C07']['suites'] + [_TCP_SUITE]
+PROPS['C07']['rule'] = PROPS['C07']['rule'] + ' || ' + _TCP_RULE
+PROPS['C19']['suites'] = PROPS['C19']['suites'] + [PROPS['C03']['suites'][0]]
+PROPS['C19']['rule'] = PROPS['C19']['rule'] + ' || packed suite: the entries of packed / compressed streams carry the instants they were given, also after failed calls'
+
 # C08 / C16 as statements about the sequence of events (Conc/Sections.lean): sections are uninterrupted in the execution log
 PROPS['C08']['theorems'] = PROPS['C08']['theorems'] + ['FV.Lk.held_log', 'FV.Lk.shared_log', 'FV.Lk.section_uninterrupted',
                                                        'FV.Tie.C08_send_section_uninterrupted', 'FV.Tie.C08_section_reachable']
